@@ -531,6 +531,66 @@ def check_projection_ploidy(prog, rep):
             rep.violate("R7-ploidy", f.qualname, "the unphased matrix is built with ploidy=%s, not the ploidy of its source" % dump(v)[:40], where(f, ctors[0]), "ploidy=%s.ploidy" % src, dump(v)[:40])
 
 
+def check_phased_ploidy(prog, rep):
+    """R7-ploidy (phased matrix): the phased class never hands a ploidy to its base constructor, so the ploidy it reports is the number of phases it stores"""
+    K = prog.get_class(PGM[1], PGM[0])
+    P = prog.lookup_prop(K, "ploidy")
+    f = P.getter if P is not None else None
+    if f is None:
+        rep.unrec("R7-ploidy", K.qualname, "ploidy getter vanished")
+        return
+    rep.saw(f)
+    construct = "%s.ploidy" % K.qualname
+    body = body_nodoc(f.node)
+    ax = prog.const_prop(K, "phase_axis")
+    if len(body) != 1 or not isinstance(body[0], ast.Return):
+        rep.unrec("R7-ploidy", construct, "getter not a single return")
+        return
+    v = "".join(dump(body[0].value).split())
+    good = {"self._mat.shape[self.phase_axis]", "self.mat.shape[self.phase_axis]", "self.nphase", "self._mat.shape[%s]" % ax, "len(self._mat)" if ax == 0 else "-", "len(self.mat)" if ax == 0 else "-"}
+    if v in good:
+        rep.ok("R7-ploidy", construct, "ploidy = number of stored phases")
+    elif v in ("self._ploidy",) or isinstance(body[0].value, ast.Constant):
+        rep.violate("R7-ploidy", construct, "the phased matrix reports %s as its ploidy; its constructor never sets that from the data (the base default is 2), so a haploid or "
+                    "tetraploid phased matrix divides every frequency by the wrong ploidy" % v, where(f), "self._mat.shape[self.phase_axis]", v)
+    else:
+        rep.unrec("R7-ploidy", construct, "ploidy is %s" % v[:50])
+
+
+def check_import_ploidy(prog, rep):
+    """R7-ploidy (import): the unphased matrix read from a VCF file gets the number of phases of the calls as ploidy - read from the phased call array BEFORE its
+    phase axis is summed away (afterwards the leading axis is the taxa axis)"""
+    K = prog.get_class(GM[1], GM[0])
+    f = K.methods.get("from_vcf")
+    if f is None:
+        rep.unrec("R7-ploidy", K.qualname, "from_vcf vanished")
+        return
+    rep.saw(f)
+    body = body_nodoc(f.node)
+    ctors = [c for c in walk_no_nested(f.node) if isinstance(c, ast.Call) and isinstance(c.func, ast.Name) and c.func.id == "cls"]
+    kws = kwargs_of(ctors[0])[0] if len(ctors) == 1 else {}
+    P, M = kws.get("ploidy"), kws.get("mat")
+    if not (isinstance(P, ast.Name) and isinstance(M, ast.Name)):
+        rep.unrec("R7-ploidy", f.qualname, "constructor call cls(mat=<name>, ploidy=<name>) not found")
+        return
+    pdef = [(i, st) for i, st in enumerate(body) if isinstance(st, ast.Assign) and any(isinstance(t, ast.Name) and t.id == P.id for t in st.targets)]
+    red = [(i, st) for i, st in enumerate(body) if isinstance(st, ast.Assign) and any(isinstance(t, ast.Name) and t.id == M.id for t in st.targets)
+           and isinstance(st.value, ast.Call) and isinstance(st.value.func, ast.Attribute) and st.value.func.attr == "sum" and dump(st.value.func.value) == M.id]
+    if len(pdef) != 1 or len(red) != 1:
+        rep.unrec("R7-ploidy", f.qualname, "expected one definition of %s and one phase reduction of %s at the top level of from_vcf" % (P.id, M.id))
+        return
+    (ip, sp), (ir, sr) = pdef[0], red[0]
+    v = sp.value
+    is_len = (isinstance(v, ast.Call) and dump(v.func) == "len" and len(v.args) == 1 and dump(v.args[0]) == M.id) or dump(v) in ("%s.shape[0]" % M.id,)
+    if not is_len:
+        rep.unrec("R7-ploidy", f.qualname, "ploidy is %s, not the leading extent of %s" % (dump(v)[:40], M.id))
+    elif ip > ir:
+        rep.violate("R7-ploidy", f.qualname, "ploidy is read from %s AFTER its phase axis is summed away (%s): it is the number of samples, every frequency / class count of the "
+                    "imported matrix divides by it" % (M.id, dump(sr)[:50]), where(f, sp), "%s before %s" % (dump(sp)[:30], dump(sr)[:30]), "after")
+    else:
+        rep.ok("R7-ploidy", f.qualname, "ploidy = number of phases of the call array, read before the phases are summed")
+
+
 def run(prog, rep, tier):
     rep.explanation = ("Spec congruence of every statistic with its definition through an algebraic normal form (both genotype classes), structural rule for the "
                        "genotype-class count, complement forms, a forward taint (reciprocal-multiply values reaching comparisons with 1) with function summaries, "
@@ -547,4 +607,6 @@ def run(prog, rep, tier):
         check_ploidy_carried(prog, rep, K)
         check_fresh(prog, rep, K, STATS)
     check_projection_ploidy(prog, rep)
+    check_import_ploidy(prog, rep)
+    check_phased_ploidy(prog, rep)
     check_exactness(prog, rep, tier, sink_filter=NOT_SELECTION)
